@@ -14,7 +14,8 @@ package main
 //   range-untyped a `range` whose operand type could not be determined at all
 //                (listed so that nothing is silently assumed to be a slice)
 //   clock        time.Now / globals.Now
-//   env          filepath.Abs, os.Getwd, os.Hostname, os.Getenv, os.Environ, os.UserHomeDir, os.Executable
+//   env          filepath.Abs, os.Getwd, os.Hostname, os.Getenv, os.Environ, os.UserHomeDir, os.Executable,
+//                imports.Process (goimports looks at the file system around the output file)
 //   sort         sort.Sort / sort.Stable / sort.Slice / sort.SliceStable / sort.Strings / sort.Ints
 //   marshal      yaml.Marshal / json.Marshal / json.NewEncoder (a library chooses the order of map keys)
 //   tmpl-range   a {{range …}} action inside a string literal (text/template visits
@@ -550,7 +551,7 @@ func (sc *c19Scan) scanBody(pk *c19Pkg, rel, fn string, env *c19Env, body ast.No
 				switch q {
 				case "time.Now", "globals.Now":
 					add("clock", q)
-				case "filepath.Abs", "os.Getwd", "os.Hostname", "os.Getenv", "os.Environ", "os.UserHomeDir", "os.Executable", "os.LookupEnv", "os.Getpid", "os.TempDir":
+				case "filepath.Abs", "os.Getwd", "os.Hostname", "os.Getenv", "os.Environ", "os.UserHomeDir", "os.Executable", "os.LookupEnv", "os.Getpid", "os.TempDir", "imports.Process":
 					add("env", q)
 				case "sort.Sort", "sort.Stable", "sort.Slice", "sort.SliceStable", "sort.Strings", "sort.Ints", "sort.Float64s":
 					add("sort", q)
